@@ -56,7 +56,7 @@ func TestRaceAudit(t *testing.T) {
 	var cases []ra.Case
 	for _, tc := range tcs {
 		tc := tc
-		cases = append(cases, ra.Case{Key: fmt.Sprintf("%s|fee=%d,pct=%d|bal=%d|n=%d|%s", cfgName(tc), tc.Fee, tc.Pct, tc.Bal, tc.N, variants[tc.Var].name), PerG: true, Fn: func(g int) string {
+		cases = append(cases, ra.Case{Key: fmt.Sprintf("collateral|%s|fee=%d,pct=%d|bal=%d|n=%d|%s", cfgName(tc), tc.Fee, tc.Pct, tc.Bal, tc.N, variants[tc.Var].name), PerG: true, Fn: func(g int) string {
 			seed := int64(20 + g)
 			key := NewKey(seed, 1)
 			rec, ls, err := build(tc, key, seed)
